@@ -248,6 +248,37 @@ mod regstatic {
 fn main() {
     std::panic::set_hook(Box::new(|_| {}));
     let a: Vec<String> = std::env::args().collect();
+    if a.get(1).map(|x| x.as_str()) == Some("firstuse") {
+        // the process's very FIRST use of the default registry, made by several threads at the same moment: every register_*! that
+        // returns Ok must be visible in prometheus::gather(), every handle must be the registered metric
+        let n: usize = a.get(2).and_then(|x| x.parse().ok()).unwrap_or(8);
+        let barrier = std::sync::Arc::new(std::sync::Barrier::new(n));
+        let hs: Vec<_> = (0..n).map(|i| {
+            let b = barrier.clone();
+            std::thread::spawn(move || {
+                b.wait();
+                let r = match i % 3 {
+                    0 => register_int_counter!(format!("fu_{}", i), "h").map(|c| c.inc_by(i as u64 + 1)).is_ok(),
+                    1 => register_gauge!(format!("fu_{}", i), "h").map(|g| g.set(i as f64 + 1.0)).is_ok(),
+                    _ => register_int_counter_vec!(format!("fu_{}", i), "h", &["l"]).map(|v| v.with_label_values(&["x"]).inc_by(i as u64 + 1)).is_ok(),
+                };
+                r
+            })
+        }).collect();
+        let oks: Vec<bool> = hs.into_iter().map(|h| h.join().unwrap_or(false)).collect();
+        let fams = prometheus::gather();
+        let mut seen = vec![];
+        for i in 0..n {
+            let name = format!("fu_{}", i);
+            let v = fams.iter().find(|f| f.get_name() == name).map(|f| {
+                let m = &f.get_metric()[0];
+                vh_pm::counter_value(m) + vh_pm::gauge_value(m)
+            });
+            seen.push(json!({"i": i, "ok": oks[i], "gathered": v}));
+        }
+        println!("{}", json!({"ok": seen}));
+        return;
+    }
     if a.get(1).map(|x| x.as_str()) == Some("regstatic") {
         let r = std::panic::catch_unwind(regstatic::run);
         println!("{}", match r { Ok(v) => json!({"ok": v}), Err(e) => json!({"panic": e.downcast_ref::<String>().cloned().unwrap_or_default()}) });
